@@ -349,7 +349,12 @@ def one_call(rng, g, dp, lab, emit, col):
         return emit(name, fn, [], True, [])
     if kind == "comment":
         which = rng.choice(["comment", "annotate", "move-comment"])
-        text = rng.choice(["layer 3", "tool change", "speed 1e5", "a-b", "x=1.5"])
+        # also text with line breaks of its own (LF, CR, CRLF -- whatever the configured ending is):
+        # the call must still produce ONE block terminated once
+        text = rng.choice(["layer 3", "tool change", "speed 1e5", "a-b", "x=1.5", "retract\nnext", "a\rb",
+                           "first\r\nsecond third", "tail break\n"])
+        if "\n" in text or "\r" in text:
+            col.count("comment_text_with_line_breaks")
         if which == "comment":
             return emit("comment", lambda: g.comment(text, 7, 2.5), [], True, [])
         if which == "annotate":
